@@ -3,6 +3,7 @@
 (* Trace validation of the tau stage against TauTables.tla / Kinematics.tla *)
 (* (C04, C05, C07).  Event kinds:                                           *)
 (*   z        {e, b, u, z, grp}   grid_cdf_sampler(grid)(e, b, u)           *)
+(*   zalt     {sampler, e, b, u, z}  lerp_ / nearest_cdf_sampler(grid, e)(b, u)*)
 (*   etau     {e, b, u, E}        Taus.tau_energy(b, e, u)                  *)
 (*   reject   {e, raised}         a call with this neutrino energy raised?  *)
 (*   explicit {zint, zexp}        internal-generator call vs explicit-u call*)
@@ -76,8 +77,18 @@ CheckZSyn(e) ==
              <<"C18 row-wise interpolation = ordinary piecewise-linear interpolation on a non-decreasing row",
                ~e.node \/ FClose(e.zz, Inverse(e.row, e.T.z, e.u), T12, T12)>> >>)
 
+(* the alternative samplers of cdf.py (not used by the simulator's tau stage; beyond C04: EXT clauses) *)
+NearestNode(ax, b) == CHOOSE j \in 1..Len(ax) : \A k \in 1..Len(ax) : FLe(FAbs(FSub(b, ax[j])), FAbs(FSub(b, ax[k])))
+CheckZAlt(e) ==
+    IF e.sampler = "lerp"
+    THEN Fails(<< <<"EXT: lerp_cdf_sampler(grid, E)(beta, u): F(z | E, beta) = u",
+                    InAxis(CZ, e.z) /\ FClose(FT(Tab.cdf, e.z, e.e, e.b), e.u, FZero, T12)>> >>)
+    ELSE Fails(<< <<"EXT: nearest_cdf_sampler(grid, E)(beta, u): F(z | E, nearest tabulated beta) = u",
+                    InAxis(CZ, e.z) /\ FClose(FT(Tab.cdf, e.z, e.e, CB[NearestNode(CB, e.b)]), e.u, FZero, T12)>> >>)
+
 Check(e) ==
     CASE e.kind = "z" -> CheckZ(e)
+      [] e.kind = "zalt" -> CheckZAlt(e)
       [] e.kind = "zsyn" -> CheckZSyn(e)
       [] e.kind = "etau" -> CheckEtau(e)
       [] e.kind = "reject" -> CheckReject(e)
